@@ -519,6 +519,24 @@ CORPUS["C09"] += [B("scaled currents kept in a dict captured by the closure", "R
 CORPUS["C11"] += [B("scaled currents kept in a dict captured by the closure", "R11.10", CF_STATEFUL)]
 CORPUS["C01"] += [E("scaled currents built in a fresh dict by a nested def", CF_FRESH)]
 
+
+# fourth round ----------------------------------------------------------------------------------------------------------------
+CORPUS["C03"] += [B("PARDISO branch keeps the transpose of the Laplacian", "R03.1", (OPS, "            self.mu_laplacian = sp.csc_matrix(self.mu_laplacian)\n            self.mu_laplacian_lu = None\n", "            self.mu_laplacian = sp.csc_matrix(self.mu_laplacian).T\n            self.mu_laplacian_lu = None\n")),
+                  E("PARDISO branch converts through csr first", (OPS, "            self.mu_laplacian = sp.csc_matrix(self.mu_laplacian)\n            self.mu_laplacian_lu = None\n", "            self.mu_laplacian = sp.csc_matrix(sp.csr_matrix(self.mu_laplacian))\n            self.mu_laplacian_lu = None\n"))]
+FRAMES_OLD = "            for i in range(step_min, step_max + 1):\n"
+CORPUS["C05"] += [B("frames visited in lexicographic order of their names", "R05.11", (DATA, FRAMES_OLD, "            for i in sorted(k for k in h5file[\"data\"] if step_min <= int(k) <= step_max):\n")),
+                  E("frames visited in numeric order through sorted(key=int)", (DATA, FRAMES_OLD, "            for i in sorted((k for k in h5file[\"data\"] if step_min <= int(k) <= step_max), key=int):\n"))]
+HOLES_OLD = "            hole_coords=[hole.points for hole in self.holes],\n"
+CORPUS["C07"] += [B("holes with mesh=False are not handed to the mesher", "R07.7", (DEVICE, HOLES_OLD, "            hole_coords=[hole.points for hole in self.holes if hole.mesh],\n")),
+                  E("hole outlines collected in a local first", (DEVICE, "        points, triangles = generate_mesh(\n            self.film.points,\n" + HOLES_OLD, "        hole_outlines = [hole.points for hole in self.holes]\n        points, triangles = generate_mesh(\n            self.film.points,\n            hole_coords=hole_outlines,\n"))]
+LOOP = "sources/loop.py"
+CORPUS["C08"] += [B("CurrentLoop wrapper drops current_units", "R08.6", (LOOP, "        current_units=current_units,\n        length_units=length_units,\n    )\n    return A", "        length_units=length_units,\n    )\n    return A")),
+                  B("CurrentLoop wrapper drops length_units", "R08.6", (LOOP, "        current_units=current_units,\n        length_units=length_units,\n    )\n    return A", "        current_units=current_units,\n    )\n    return A"))]
+CORPUS["C10"] += [B("solve() resets the remembered potential to A(0)", "R10.8", (SOLVER, "        options = self.options\n        options.validate()\n", "        options = self.options\n        options.validate()\n        if self.dynamic_vector_potential:\n            self.current_A_applied = self.update_applied_vector_potential(0)\n"))]
+CORPUS["C14"] += [B("edge mesh stores unit vectors under 'directions'", "R14.12", (EMESH, "        h5group[\"directions\"] = self.directions\n", "        h5group[\"directions\"] = self.normalized_directions\n")),
+                  B("edge mesh stores lengths under swapped keys", "R14.12", (EMESH, "        h5group[\"edge_lengths\"] = self.edge_lengths\n        h5group[\"dual_edge_lengths\"] = self.dual_edge_lengths\n", "        h5group[\"edge_lengths\"] = self.dual_edge_lengths\n        h5group[\"dual_edge_lengths\"] = self.edge_lengths\n")),
+                  B("options module postpones its annotations", "R14.2", (OPTIONS, "from dataclasses import dataclass\n", "from __future__ import annotations\n\nfrom dataclasses import dataclass\n"))]
+
 # ---------------------------------------------------------------------------
 # generic behaviour-preserving transformations of the anchor functions
 # ---------------------------------------------------------------------------
